@@ -38,6 +38,13 @@ pub struct PStrict {
     pub a: u8,
 }
 
+#[derive(Debug, Serialize)]
+pub struct MFlat {
+    pub method: &'static str,
+    #[serde(flatten)]
+    pub rest: std::collections::BTreeMap<String, Value>,
+}
+
 #[derive(Debug, ReplyError, PartialEq, Clone)]
 #[zlink(interface = "d", crate = "zlink_core")]
 pub enum ED {
@@ -483,6 +490,11 @@ pub fn run(cfg: &Cfg) -> Report {
             encode_case(&mut rep, "MA::Opt(None)", MA::Opt { o: None }, set);
             encode_case(&mut rep, "MB::Bor", MB::Bor { s: "borrowed", n: 7 }, set);
             encode_case(&mut rep, "MStrict", MStrict { method: "s.M".into(), parameters: PStrict { a: 1 } }, set);
+            // method types that serialize as a map rather than a struct (generic clients): a JSON value, a string-keyed
+            // map, a struct with a flattened member
+            encode_case(&mut rep, "serde_json::Value", json!({"method": "g.Any", "parameters": {"k": [1, 2], "s": "t"}}), set);
+            encode_case(&mut rep, "BTreeMap", [("method".to_string(), json!("g.Map")), ("parameters".to_string(), json!({"a": null}))].into_iter().collect::<std::collections::BTreeMap<String, Value>>(), set);
+            encode_case(&mut rep, "flattened", MFlat { method: "g.Flat", rest: [("parameters".to_string(), json!({"x": 1.5}))].into_iter().collect() }, set);
             encode_case(&mut rep, "service::GetInfo", varlink_service::Method::GetInfo, set);
             encode_case(&mut rep, "service::GetInterfaceDescription", varlink_service::Method::GetInterfaceDescription { interface: "org.example.x" }, set);
         }
